@@ -402,7 +402,7 @@ open GitAi
     `,b` and the bare `a` — written with numbers that fit `u32` (counts positive), whenever the
     lines git blame shows for it lie inside the file (`1 ≤ first ≤ last ≤ total`),
     `parse_line_range` + `prepare_blame_request` hand exactly that first/last line to
-    `git blame -L first,last`. (Before /repo f2474c34 and 821fad3d, `2,+3` selected 2–3, the bare
+    `git blame -L first,last`. (Before /repo 85d0cf99 and 35a174f4, `2,+3` selected 2–3, the bare
     `5` selected line 5 only and `5,` / `,5` / `5,-2` were refused.) -/
 theorem l_arg_spec (total : Nat) (sp : LSpec) (hwf : sp.wf) (htot : total < 4294967295)
     (h1 : 1 ≤ (sp.gitLines total).1) (h2 : (sp.gitLines total).1 ≤ (sp.gitLines total).2)
